@@ -3,7 +3,7 @@
 # passes on the clean tree and fails with the patch, and that the suite passes with the patch;
 # then store the change under /verif/seeded/<PROP>-<i>/.
 set -u
-P=$1; I=$2
+P=$1; I=$2; J=${4:-$2}
 S=/tmp/mut-$P-scratch/$I
 W=/tmp/mut-$P
 export GOFLAGS=-mod=mod GOPROXY=off GOSUMDB=off GOTOOLCHAIN=local
@@ -19,9 +19,9 @@ go test -vet=off -count=1 ./... >/tmp/confirm3.log 2>&1; c=$?
 git checkout -q -- . ; git clean -fdq
 echo "$P-$I: demo clean=$a patched=$b suite-with-patch=$c"
 if [ $a -eq 0 ] && [ $b -ne 0 ] && [ $c -eq 0 ]; then
-  mkdir -p /verif/seeded/$P-$I
-  cp $S/patch.diff $S/demo_test.go /verif/seeded/$P-$I/
-  python3 - "$S/meta.json" "/verif/seeded/$P-$I/meta.json" "$3" <<'PY'
+  mkdir -p /verif/seeded/$P-$J
+  cp $S/patch.diff $S/demo_test.go /verif/seeded/$P-$J/
+  python3 - "$S/meta.json" "/verif/seeded/$P-$J/meta.json" "$3" <<'PY'
 import json, sys
 m = json.load(open(sys.argv[1]))
 m['coordinator_confirmed'] = 'demo passes on clean tree, fails with patch; go test -vet=off -count=1 ./... passes with patch'
